@@ -135,6 +135,13 @@ func hullGen(r *rand.Rand, n int, tier string, emit func(Case)) {
 		switch r.Intn(8) {
 		case 0, 1:
 			mk = 1
+		case 2:
+			// general position: only the covering claims are made there, and only for inputs whose control points are in
+			// general position themselves (no three distinct ones collinear: nearly collinear float triples are the
+			// sub-tolerance inputs the property excludes)
+			if generalPosition(g) {
+				mk = 2
+			}
 		}
 		c := pairCase(l, g, geom.Geometry{}, mk)
 		delete(c, "wb")
@@ -143,17 +150,46 @@ func hullGen(r *rand.Rand, n int, tier string, emit func(Case)) {
 	}
 }
 
+func generalPosition(g geom.Geometry) bool {
+	seq := g.DumpCoordinates()
+	seen := map[geom.XY]bool{}
+	var pts []geom.XY
+	for i := 0; i < seq.Length(); i++ {
+		if p := seq.GetXY(i); !seen[p] {
+			seen[p] = true
+			pts = append(pts, p)
+		}
+	}
+	if len(pts) > 30 {
+		return false
+	}
+	for i := range pts {
+		for j := i + 1; j < len(pts); j++ {
+			for k := j + 1; k < len(pts); k++ {
+				if (pts[j].X-pts[i].X)*(pts[k].Y-pts[i].Y) == (pts[j].Y-pts[i].Y)*(pts[k].X-pts[i].X) {
+					return false
+				}
+			}
+		}
+	}
+	return true
+}
+
 func hullOnPanic(c Case) Event {
 	e := Event{"kind": "empty", "pts": [][]int{}}
 	rc := Event{"kind": "empty", "c": [][]int{}, "an": 0, "wn": 0}
-	return Event{"g": []*flat{}, "hull": e, "hull2": e, "hullp": e, "hvalid": false, "ra": rc, "rw": rc, "rects": false}
+	return Event{"g": []*flat{}, "hull": e, "hull2": e, "hullp": e, "hvalid": false, "ra": rc, "rw": rc, "rects": false, "gp": false}
 }
 
 func hullExec(c Case) Event {
 	ev := hullOnPanic(c)
 	g0 := mustWKT(c.str("wa"))
-	f, _ := mapOf(c)
+	f, gp := mapOf(c)
 	inv := invOf(c)
+	if gp {
+		inv = snapLattice(inv)
+	}
+	ev["gp"] = gp
 	s := scaleOf(c)
 	g := imageOf(g0, f)
 	ev["g"] = parts(g0)
